@@ -2,6 +2,7 @@ package rules
 
 import (
 	"fmt"
+	"strings"
 
 	"ibcverif/term"
 )
@@ -108,9 +109,18 @@ func runC36(c *Ctx) {
 			if e.T.String(ev.Args[0]) == "-1" {
 				continue
 			}
-			i := e.T.String(ev.Args[0])
-			el := "index(param#1, " + siteRE.ReplaceAllString(i, "") + ")"
-			if !any("eq(field:SourceChannel("+el+"), field:SourceChannel(param#0))", ev.Atoms) || !any("eq(field:SourcePort("+el+"), field:SourcePort(param#0))", ev.Atoms) {
+			// the returned index i (a loop variable, or the result of a slices search over the allocations) has
+			// allocations[i] established to carry the message's channel and port
+			ps := c.pats(which, nil, "eq(field:SourceChannel(index(param#1, ?i)), field:SourceChannel(param#0))", "eq(field:SourcePort(index(param#1, ?i)), field:SourcePort(param#0))")
+			found := false
+			e.T.MatchSet(ps, ev.Atoms, term.Env{}, func(en term.Env) bool {
+				i := en["i"]
+				if i == ev.Args[0] || (e.T.Op(i) == e.T.Op(ev.Args[0]) && strings.HasPrefix(e.T.Op(i), "call:slices.") && e.T.Args(i)[0] == e.T.Args(ev.Args[0])[0]) {
+					found = true
+				}
+				return found
+			})
+			if !found {
 				good = false
 				c.bad("C36/allocation-index", fk, e.P.Pos(ev.Instr.Pos()), "returns an index whose allocation is not established to have the message's port and channel")
 			}
